@@ -8,6 +8,7 @@
 import LdkModel.Model.MonGate
 import LdkModel.Model.CloseGate
 import LdkModel.Proofs.MonGate
+import LdkModel.Proofs.MonGateInv
 namespace Ldk.C09
 open Ldk.MonGate
 
@@ -291,6 +292,48 @@ example : (Gate.run (Chan.init 5) [.raaRecv false false false [10] [] [1, 2] [] 
 example : (Gate.run (Chan.init 5) [.raaRecv false false false [10] [] [1, 2] [] true, .complete 6]).2 =
     [.handed 6 true, .adds [10], .fails [1, 2]] := by decide
 
+
+/-! #### the Gate model over WHOLE op sequences (invariant `Gate.Inv` of Proofs/MonGateInv.lean, proved by induction through every
+    translated decision: pushBlockable, raaReleaseMonitor, claimBuildsCs / claimJump, unblockNext, mgrNewUpdate, mgrRetain,
+    mgrStillInFlight, resumeBlocked, pausedSetsInProgress, checkReady, the reestablish hold-backs, canGenerateNewCommitment) -/
+
+/-- GAP-FREE, ASCENDING ids: for every op sequence from a fresh channel whose latest_monitor_update_id is k0, the ids handed to
+    chain::Watch are exactly k0+1, k0+2, … in this order — also across RAA-blocked queues, preimage updates jumping the queue,
+    unblocking, Completed / InProgress in any pattern. -/
+theorem gate_update_ids_gap_free (k0 : Nat) (ops : List Op) :
+    handedIds (Gate.run (Chan.init k0) ops).2 = List.range' (k0 + 1) (handedIds (Gate.run (Chan.init k0) ops).2).length := by
+  obtain ⟨_, ⟨n, h1, _⟩, _⟩ := run_good ops (Chan.init k0) (Inv.init k0)
+  rw [h1]; simp [Chan.init]
+
+example : handedIds (Gate.run (Chan.init 5) [.raaRecv false false true [] [] [] [] true, .csRecv true false true, .claim false true, .unblock false,
+    .unblock true]).2 = [6, 7, 8] := by decide
+
+/-- NO RELEASE WHILE IN FLIGHT: in every op sequence, whenever a step releases anything gated (revoke_and_ack, commitment_signed,
+    channel_ready, held update_adds / forwards / failures / fulfills) the state it leaves has NO update in flight — neither in the
+    manager's in_flight_monitor_updates nor pending in the ChainMonitor. -/
+theorem gate_no_release_while_in_flight (k0 : Nat) (ops : List Op) :
+    ∀ p ∈ Gate.trace (Chan.init k0) ops, anyGated p.2 = true → p.1.inFlight = [] ∧ p.1.cmPending = [] :=
+  (run_good ops (Chan.init k0) (Inv.init k0)).2.2
+
+example : (Gate.trace (Chan.init 5) [.csRecv false false true, .complete 6]).map (fun p => (anyGated p.2, p.1.cmPending)) = [(false, [6]), (true, [])] := by decide
+
+/-- COMPLETION ORDER: from any state, completing the updates the ChainMonitor reports pending in ANY order (any two permutations of
+    the pending ids) reaches the same state and releases the same outputs in the same order. -/
+theorem gate_completion_order_independent (c : Chan) (ds ds' : List Nat) (h : ds.Perm c.cmPending) (h' : ds'.Perm c.cmPending) :
+    Gate.run c (ds.map Op.complete) = Gate.run c (ds'.map Op.complete) := by
+  rw [run_completions ds c h, run_completions ds' c h']
+
+example : Gate.run (Gate.run (Chan.init 5) [.raaRecv false false false [10] [] [1] [] true, .raaRecv false true false [] [] [3] [] true]).1 [.complete 6, .complete 7] =
+    Gate.run (Gate.run (Chan.init 5) [.raaRecv false false false [10] [] [1] [] true, .raaRecv false true false [] [] [3] [] true]).1 [.complete 7, .complete 6] := by decide
+
+/-- … and nothing at all is released before the LAST pending completion -/
+theorem gate_nothing_released_before_last_completion (c : Chan) (d : Nat) (h : (c.cmPending.erase d).isEmpty = false) :
+    (Gate.step c (.complete d)).2 = [] := by
+  simp only [Gate.step]
+  split
+  · simp [h]
+  · rfl
+
 /-- check_get_channel_ready (translated guard chain): a channel_ready that is due while a monitor update is in progress is
     ALWAYS recorded in monitor_pending_channel_ready (whether or not the peer is connected), and it is produced at once only
     when no update is in progress and the peer is connected. -/
@@ -385,7 +428,9 @@ theorem non_preimage_updates_queue_behind_held (c : Chan) (h : c.blocked ≠ [])
     simp only [Gate.step]
     exact hq _ _ _ rfl
   · intro ip hp hd
-    simp only [Gate.step, hp, hd, Bool.or_self, Bool.false_eq_true, if_false]
+    have hcan : (!c.canGenerateNewCommitment) = false := by
+      simp [Gate.Chan.canGenerateNewCommitment, Ldk.CloseGate.Gen.canGenerateNewCommitment, Ldk.CloseGate.Gen.Flags.none, hp, hd]
+    simp only [Gate.step, hcan, Bool.false_eq_true, if_false]
     exact hq _ _ _ rfl
 
 example : (Gate.step { Chan.init 7 with blocked := [8], latest := 8, paused := true } (.other false)).1.blocked = [8, 9] := by decide
@@ -518,18 +563,18 @@ theorem new_commitment_needs_no_update_in_flight (v : Nat) (f : Flags) (h : canG
 example : canGenerateNewCommitment 3 Flags.none = true ∧ canGenerateNewCommitment 3 { Flags.none with monitorUpdateInProgress := true } = false
     ∧ canGenerateNewCommitment 2 Flags.none = false := by decide
 
-/-- … and the hand-mirrored guard of `Gate.step (.send _)` in Model/MonGate.lean (`paused || disconnected` ⇒ nothing is sent) is exactly the
-    translated predicate on the two flags the Gate model tracks: dropping a flag from can_generate_new_commitment breaks this theorem -/
+/-- `Gate.step (.send _)` in Model/MonGate.lean CALLS the translated predicate (no hand-mirrored guard); on the two flags the Gate model
+    tracks it says: nothing is sent while paused or disconnected — dropping a flag from can_generate_new_commitment breaks this theorem -/
 theorem gate_send_blocked_iff_cannot_generate (c : Ldk.MonGate.Gate.Chan) :
-    (c.paused || c.disconnected) = !canGenerateNewCommitment 3 { Flags.none with monitorUpdateInProgress := c.paused, peerDisconnected := c.disconnected } := by
-  cases hp : c.paused <;> cases hd : c.disconnected <;> simp [canGenerateNewCommitment, Flags.none]
+    (c.paused || c.disconnected) = !c.canGenerateNewCommitment := by
+  cases hp : c.paused <;> cases hd : c.disconnected <;>
+    simp [Ldk.MonGate.Gate.Chan.canGenerateNewCommitment, canGenerateNewCommitment, Flags.none, hp, hd]
 
-theorem gate_send_held_when_cannot_generate (c : Ldk.MonGate.Gate.Chan) (ip : Bool)
-    (h : canGenerateNewCommitment 3 { Flags.none with monitorUpdateInProgress := c.paused, peerDisconnected := c.disconnected } = false) :
+theorem gate_send_held_when_cannot_generate (c : Ldk.MonGate.Gate.Chan) (ip : Bool) (h : c.paused = true ∨ c.disconnected = true) :
     Ldk.MonGate.Gate.step c (.send ip) = (c, []) := by
   have := gate_send_blocked_iff_cannot_generate c
-  rw [h] at this
-  simp [Ldk.MonGate.Gate.step, this]
+  have h2 : (!c.canGenerateNewCommitment) = true := by rw [← this]; rcases h with h | h <;> simp [h]
+  simp [Ldk.MonGate.Gate.step, h2]
 
 example : (Ldk.MonGate.Gate.step { Ldk.MonGate.Gate.Chan.init 7 with paused := true } (.send false)).2 = [] ∧
     (Ldk.MonGate.Gate.step (Ldk.MonGate.Gate.Chan.init 7) (.send true)).2 = [.handed 8 true] := by decide
